@@ -315,4 +315,56 @@ theorem smod_spec (w a b : Nat) (hw : 0 < w) (ha : a < 2 ^ w) (hb : b < 2 ^ w) (
   rw [← Int.tmod_def, ← BitVec.toInt_srem, BitVec.toInt_bmod_cancel]
 
 
+theorem ofNat_toNat_self {w : Nat} (x : BitVec w) : BitVec.ofNat w x.toNat = x := by
+  apply BitVec.eq_of_toNat_eq; simp
+
+theorem mask_self (w : Nat) : mask w (w : Int) = w := by
+  rw [mask_nat, ofNat_toNat_lt Nat.lt_two_pow_self]
+
+theorem mask_of_lt {w n : Nat} (h : n < 2 ^ w) : mask w (n : Int) = n := by
+  rw [mask_nat, ofNat_toNat_lt h]
+
+/-- SMT-LIB `ext_rotate_left` (rotation amount taken modulo the width) -/
+theorem rotl_spec (w a b : Nat) (hw : 0 < w) (ha : a < 2 ^ w) (hb : b < 2 ^ w) :
+    rotl w a b = .ok ((BitVec.ofNat w a).rotateLeft (BitVec.ofNat w b).toNat).toNat := by
+  have hww : w < 2 ^ w := Nat.lt_two_pow_self
+  have hbs : b % w < w := Nat.mod_lt _ hw
+  have hbs2 : b % w < 2 ^ w := by omega
+  have hk : w - b % w < 2 ^ w := by omega
+  have hw0 : w ≠ 0 := by omega
+  simp only [rotl, mask_self, umod, hw0, if_false, bind, Except.bind, mask_of_lt hbs2]
+  rw [shl_spec w a (b % w) hbs2]
+  simp only [sub]
+  have hsub : mask w ((w : Int) - ((b % w : Nat) : Int)) = w - b % w := by
+    have : ((w : Int) - ((b % w : Nat) : Int)) = ((w - b % w : Nat) : Int) := by omega
+    rw [this, mask_of_lt hk]
+  rw [hsub, lshr_spec w a (w - b % w) ha hk]
+  simp only []
+  rw [or_spec]
+  congr 2
+  simp only [ofNat_toNat_self, BitVec.shiftLeft_eq', BitVec.ushiftRight_eq', ofNat_toNat_lt hbs2, ofNat_toNat_lt hk,
+    ofNat_toNat_lt hb]
+  rfl
+
+theorem rotr_spec (w a b : Nat) (hw : 0 < w) (ha : a < 2 ^ w) (hb : b < 2 ^ w) :
+    rotr w a b = .ok ((BitVec.ofNat w a).rotateRight (BitVec.ofNat w b).toNat).toNat := by
+  have hww : w < 2 ^ w := Nat.lt_two_pow_self
+  have hbs : b % w < w := Nat.mod_lt _ hw
+  have hbs2 : b % w < 2 ^ w := by omega
+  have hk : w - b % w < 2 ^ w := by omega
+  have hw0 : w ≠ 0 := by omega
+  simp only [rotr, mask_self, umod, hw0, if_false, bind, Except.bind, mask_of_lt hbs2]
+  rw [lshr_spec w a (b % w) ha hbs2]
+  simp only [sub]
+  have hsub : mask w ((w : Int) - ((b % w : Nat) : Int)) = w - b % w := by
+    have : ((w : Int) - ((b % w : Nat) : Int)) = ((w - b % w : Nat) : Int) := by omega
+    rw [this, mask_of_lt hk]
+  rw [hsub, shl_spec w a (w - b % w) hk]
+  simp only []
+  rw [or_spec]
+  congr 2
+  simp only [ofNat_toNat_self, BitVec.shiftLeft_eq', BitVec.ushiftRight_eq', ofNat_toNat_lt hbs2, ofNat_toNat_lt hk,
+    ofNat_toNat_lt hb]
+  rfl
+
 end Claripy.BV
